@@ -1,7 +1,8 @@
 /-
   Driver.C03 — line protocol for tensor and matrix arithmetic.
 
-    @ <fp|rat|i64>                                  new case, element type        → ok
+    @ <fp|rat|i64|f64>                              new case, element type        → ok
+                                                    (f64: integer-valued data, answered by the integer model)
     t <name> <shape> <values>                       Tensor::from                  → ok | panic(explicit)
     v <name> <src> access|transpose|reverse|rename <names>
     v <name> <src> range <start:len,…>              view over a tensor/view       → ok shape=<shape> | none
@@ -195,6 +196,8 @@ def step (s : State) (toks : List String) : State × String :=
   | ["@", "fp"] => (.fp {}, "ok")
   | ["@", "rat"] => (.rat {}, "ok")
   | ["@", "i64"] => (.int {}, "ok")
+  -- f64 runs carry integer-valued data only (exact in binary floating point): the integer model
+  | ["@", "f64"] => (.int {}, "ok")
   | _ =>
     match s with
     | .none => (s, "no-case")
